@@ -52,7 +52,8 @@ TEXT = {
             "and is empty or not a suffix of the text (split drops trailing empty pieces); "
             "size/slice/truncate count characters, slice and truncate never lengthen a string that fits, truncatewords leaves a text "
             "of at most n words unchanged; escape leaves no raw < > ' \" and every & starts an entity, unescape inverts escape, "
-            "escape_once is idempotent whenever it is modelled (escape_once_idem_partial: no named entity outside amp lt gt quot apos); "
+            "escape_once is idempotent whenever it is modelled (escape_once_idem_partial: no named entity outside amp lt gt quot apos; there is no unconditional version), and unconditionally "
+            "leaves the output of escape unchanged (escape_once_escape); "
             "url_decode inverts url_encode; valid UTF-8 receiver and arguments give valid UTF-8 for every filter but url_decode "
             "(url_decode_not_preserving); nil, boolean, integer and string receivers convert to the text they print as "
             "(recv_to_string: rfl on StrF.recvToString; floats are outside the model). The models are compared with the "
